@@ -1,9 +1,13 @@
 package mon
 
 import (
+	"bufio"
 	"context"
 	"fmt"
 	"math/rand"
+	"os"
+	"os/exec"
+	"path/filepath"
 	"strings"
 	"sync"
 	"time"
@@ -363,6 +367,46 @@ func runC18(c *fw.Ctx, cs fw.Case) {
 				c.Sample(map[string]any{"kind": "engines", "engine": rc.name, "depth": depth, "start": h.Start.FEN(), "moves": h.MoveStrs(), "stream": base})
 			}
 		}
+	case "binary":
+		// the same game state and depth in another process: the real binary must report what the in-process
+		// engine built from the same recipe reports (this also pins the recipes to cmd/*/main.go)
+		for i := 0; i < cs.N; i++ {
+			rc := &recipes[r.Intn(len(recipes))]
+			h, depth := c18Root(r, i+cs.Idx)
+			if rc.name == "turochamp" && depth > 2 {
+				depth = 2
+			}
+			what := fmt.Sprintf("binary %s depth %d %s", rc.name, depth, histDesc(h))
+			bs, transcript, err := binaryAnalysis(c, rc.name, h, depth)
+			if err != nil {
+				c.Inconclusive("%v: %s", err, what)
+				continue
+			}
+			e := rc.newEngine(ctx, engine.Options{Depth: uint(depth)}, 0, nil)
+			if e.Reset(ctx, h.Start.FEN()) != nil {
+				continue
+			}
+			for _, m := range h.Moves {
+				e.Move(ctx, m.String())
+			}
+			out, err := e.Analyze(ctx, searchctl.Options{DepthLimit: lang.Some(uint(depth))})
+			if err != nil {
+				continue
+			}
+			pvs, _ := drain(out, 120*time.Second)
+			e.Halt(ctx)
+			is := uciStream(pvs)
+			c.Eval(1)
+			c.Count("binary_checks", 1)
+			c.Distinct(what)
+			if len(bs) == 0 && len(is) > 0 && len(pvs[len(pvs)-1].Moves) > 0 {
+				c.Violate("determinism:binary", "the binary reported no iteration: %s: %s", what, transcript)
+				continue
+			}
+			if d := streamDiff(is, bs, true); d != "" {
+				c.Violate("determinism:binary", "the real binary and the in-process engine of the same recipe differ: %s: %s: %s", d, what, transcript)
+			}
+		}
 	case "concurrent":
 		for i := 0; i < cs.N; i++ {
 			rc := &recipes[r.Intn(len(recipes))]
@@ -426,6 +470,111 @@ func runC18(c *fw.Ctx, cs fw.Case) {
 	}
 }
 
+// binaryAnalysis runs one of the real binaries (race build) over pipes: noise off, book off, one position,
+// go depth d; returns the info lines' (depth, score, nodes, pv) per iteration.
+func binaryAnalysis(c *fw.Ctx, name string, h gen.Hist, depth int) ([]searchResult, string, error) {
+	dir := os.Getenv("VERIF_BINDIR")
+	bin := filepath.Join(dir, name)
+	if _, err := os.Stat(bin); err != nil {
+		return nil, "", fmt.Errorf("binary %s not built", bin)
+	}
+	args := []string{"-logtostderr=false", "-log_dir=" + c.Scratch}
+	if name != "morlock" {
+		args = append(args, "-noise=0", fmt.Sprintf("-ply=%d", depth))
+	}
+	cmd := exec.Command(bin, args...)
+	cmd.Env = append(os.Environ(), "GORACE=halt_on_error=0 exitcode=0 log_path="+filepath.Join(c.Scratch, "binrace"))
+	stdin, _ := cmd.StdinPipe()
+	stdout, _ := cmd.StdoutPipe()
+	if err := cmd.Start(); err != nil {
+		return nil, "", err
+	}
+	script := []string{"uci", "setoption name OwnBook value false", "setoption name Hash value 0", "setoption name Noise value 0", positionCmd(h.Start, h.Moves, true), fmt.Sprintf("go depth %d", depth)}
+	for _, l := range script {
+		fmt.Fprintln(stdin, l)
+	}
+	var stream []searchResult
+	var lines []string
+	sc := bufio.NewScanner(stdout)
+	sc.Buffer(make([]byte, 1<<20), 1<<20)
+	done := make(chan struct{})
+	go func() {
+		defer close(done)
+		for sc.Scan() {
+			l := sc.Text()
+			lines = append(lines, l)
+			if strings.HasPrefix(l, "bestmove") {
+				return
+			}
+		}
+	}()
+	select {
+	case <-done:
+	case <-time.After(120 * time.Second):
+		cmd.Process.Kill()
+		return nil, "", fmt.Errorf("watchdog")
+	}
+	fmt.Fprintln(stdin, "quit")
+	stdin.Close()
+	cmd.Wait()
+	seen := map[string]bool{}
+	for _, l := range lines {
+		if !strings.HasPrefix(l, "info depth ") {
+			continue
+		}
+		f := strings.Fields(l)
+		r := searchResult{}
+		d := ""
+		for i := 0; i+1 < len(f); i++ {
+			switch f[i] {
+			case "depth":
+				d = f[i+1]
+			case "cp", "mate":
+				r.score = f[i] + " " + f[i+1]
+			case "nodes":
+				fmt.Sscan(f[i+1], &r.nodes)
+			case "pv":
+				r.pv = strings.Join(f[i+1:], " ")
+			}
+		}
+		key := d + "|" + r.score + "|" + r.pv
+		if seen[key] {
+			continue // the final info line repeats the last iteration
+		}
+		seen[key] = true
+		r.score = "d" + d + ":" + r.score
+		stream = append(stream, r)
+	}
+	return stream, strings.Join(lines, " | "), nil
+}
+
+// uciStream renders an in-process PV stream the way the UCI driver prints it.
+func uciStream(pvs []search.PV) []searchResult {
+	var out []searchResult
+	seen := map[string]bool{}
+	for _, pv := range pvs {
+		r := searchResult{nodes: pv.Nodes}
+		if pv.Score.IsHeuristic() {
+			r.score = fmt.Sprintf("cp %d", int(pv.Score.Pawns*100))
+		} else {
+			r.score = fmt.Sprintf("mate %d", eval.IncrementMateDistance(pv.Score).Mate/2)
+		}
+		var ms []string
+		for _, m := range pv.Moves {
+			ms = append(ms, adapt.TupleOfB(m).String())
+		}
+		r.pv = strings.Join(ms, " ")
+		key := fmt.Sprint(pv.Depth) + "|" + r.score + "|" + r.pv
+		if seen[key] {
+			continue
+		}
+		seen[key] = true
+		r.score = fmt.Sprintf("d%d:%s", pv.Depth, r.score)
+		out = append(out, r)
+	}
+	return out
+}
+
 func init() {
 	fw.Register(&fw.Monitor{
 		ID:          "C18",
@@ -440,10 +589,11 @@ func init() {
 			l := mkCases(nil, "repeat", 32, seed, pick(tier, 20, 600))
 			l = mkCases(l, "engines", 16, seed, pick(tier, 6, 120))
 			l = mkCases(l, "concurrent", 8, seed, pick(tier, 3, 60))
+			l = mkCases(l, "binary", 8, seed, pick(tier, 3, 60))
 			return l
 		},
 		Floors: func(string) map[string]int64 {
-			return map[string]int64{"repeat_checks": 500, "seed_checks": 1000, "engine_runs": 60, "noise_checks": 60, "concurrent_checks": 15}
+			return map[string]int64{"repeat_checks": 500, "seed_checks": 1000, "engine_runs": 60, "noise_checks": 60, "concurrent_checks": 15, "binary_checks": 15}
 		},
 		Run: runC18,
 	})
